@@ -624,7 +624,7 @@ static void oracle(const Dev &v, const std::string &layer, Ctx &c)
         c.sample("{\"case\":" + jstr(dev_desc(v).substr(0, 300)) + ",\"outcome\":" + jstr(outcome) + "}");
 }
 
-static void run_devs(const std::string &name, const std::vector<Dev> &D, CaseSet &cs)
+static void run_devs(const std::string &name, const std::vector<Dev> &D, CaseSet &cs, const std::vector<char> *skip = nullptr)
 {
     cs.name = name;
     cs.n = D.size();
@@ -676,10 +676,31 @@ static void run_devs(const std::string &name, const std::vector<Dev> &D, CaseSet
         }
         return "loads:" + cls + (fn.empty() ? "" : "@" + fn) + ":" + dev_field(D[i]);
     };
-    cs.body = [&D, name](long long i, Ctx &c) { oracle(D[i], name, c); };
+    cs.body = [&D, name, skip](long long i, Ctx &c) {
+        if (skip && (*skip)[i])
+            return; // short-circuited (counted by the parent)
+        oracle(D[i], name, c);
+    };
     double t0 = now();
     run_cases(cs);
     run().counters["wall_ms:" + name] = (uint64_t)((now() - t0) * 1000);
+}
+
+// Node ids in a dump are the addresses the objects had in the dumping process; the loader only uses them as map keys.
+// Renumbering them consistently gives an equally valid dump whose bytes do not depend on the heap layout, so that the
+// enumeration (probe values, outcomes of id collisions) is identical in every run and in replays.
+static void normalise_ids(Dump &d)
+{
+    std::map<uint64_t, uint64_t> m;
+    for (size_t p = 0; p + 8 <= d.bytes.size(); p++)
+        if (d.kind[p] == "node-id[0]") {
+            uint64_t v;
+            memcpy(&v, &d.bytes[p], 8);
+            auto it = m.find(v);
+            if (it == m.end())
+                it = m.insert({v, 0x0000602000000010ULL + 0x20 * m.size()}).first;
+            memcpy(&d.bytes[p], &it->second, 8);
+        }
 }
 
 static std::vector<uint8_t> probe_values(uint8_t o)
@@ -774,7 +795,7 @@ int main(int argc, char **argv)
     R.counters["candidate_states"] = cands.size();
     std::stable_sort(cands.begin(), cands.end(), [](const Cand &a, const Cand &b) { return a.d.bytes.size() < b.d.bytes.size(); });
     // quick: smallest dump per load_basic overload group; thorough: per type code, then per (type code, child classes)
-    size_t want = thorough ? 200 : 1000;
+    size_t want = thorough ? 120 : 1000;
     std::set<std::string> groups;
     std::vector<int> chosen;
     std::vector<char> used(cands.size(), 0);
@@ -807,6 +828,7 @@ int main(int argc, char **argv)
         s.key = key(*cands[i].e);
         s.tc = cands[i].e->get_type_code();
         s.d = cands[i].d;
+        normalise_ids(s.d);
         // the recorded dump must be what Basic::dumps produces (same length and field structure) and must load back
         std::string ref = cands[i].e->dumps();
         g_max_alloc = 0;
@@ -842,7 +864,9 @@ int main(int argc, char **argv)
             s.recipe = m.first;
             s.matrix = true;
             s.d = recorded_dump(m.second);
-            if (s.d.bytes != m.second.dumps() || !(DenseMatrix::loads(s.d.bytes) == m.second)) {
+            bool same_as_api = s.d.bytes == m.second.dumps();
+            normalise_ids(s.d);
+            if (!same_as_api || !(DenseMatrix::loads(s.d.bytes) == m.second)) {
                 printf("matrix seed: recorded dump differs from DenseMatrix::dumps\n");
                 return 2;
             }
@@ -885,6 +909,7 @@ int main(int argc, char **argv)
         if (DA[i].type == SUB)
             badprobes[{DA[i].seed, DA[i].pos}]++;
     std::vector<Dev> DB;
+    static std::vector<char> skipB; // saturated positions (never set when replaying: layer A was not run then)
     uint64_t short_circuited = 0, saturated_positions = 0;
     for (size_t si = 0; si < SEEDS.size(); si++) {
         size_t n = SEEDS[si].d.bytes.size();
@@ -899,8 +924,8 @@ int main(int argc, char **argv)
                     continue;
                 if (sat)
                     short_circuited++;
-                else
-                    DB.push_back({(int)si, SUB, (uint16_t)p, (uint8_t)v, 0, 0});
+                DB.push_back({(int)si, SUB, (uint16_t)p, (uint8_t)v, 0, 0});
+                skipB.push_back(sat ? 1 : 0);
             }
         }
     }
@@ -908,7 +933,7 @@ int main(int argc, char **argv)
     R.counters["saturated_positions"] = saturated_positions;
     CaseSet lb;
     if (!past_deadline())
-        run_devs("B:all-values", DB, lb);
+        run_devs("B:all-values", DB, lb, &skipB);
     else
         R.exhaustive = false;
     if (short_circuited)
